@@ -22,7 +22,8 @@ const stressTimeout = 3 * time.Millisecond
 
 type stressService struct{}
 
-func (stressService) Ret() string { return retVal }
+func (stressService) Ret() string          { return retVal }
+func (stressService) Subscription() string { return retVal }
 func (stressService) Big() string { return bigVal }
 func (stressService) Err() error  { return svcError{errMsg} }
 
@@ -44,9 +45,9 @@ func randEntry(r *rand.Rand) map[string]any {
 	case 1:
 		return map[string]any{"k": "resp", "id": float64(1), "m": "-"}
 	case 2, 3:
-		return map[string]any{"k": "notif", "id": float64(0), "m": []string{"ret", "blk"}[r.Intn(2)]}
+		return map[string]any{"k": "notif", "id": float64(0), "m": []string{"ret", "blk", "nsub"}[r.Intn(3)]}
 	default:
-		return map[string]any{"k": "call", "id": float64(1 + r.Intn(2)), "m": []string{"ret", "err", "big", "blk", "blk"}[r.Intn(5)]}
+		return map[string]any{"k": "call", "id": float64(1 + r.Intn(2)), "m": []string{"ret", "err", "big", "blk", "blk", "nsub"}[r.Intn(6)]}
 	}
 }
 
